@@ -10,6 +10,9 @@ const WhopLocSymbol = Symbol("whopper-location")
 type WhopLoc struct {
 	Method  *Method
 	Current int
+	// Args are the arguments the method was called with. They are what
+	// call-next-method passes on when it is called without arguments.
+	Args List
 }
 
 // String representation of the Object.
